@@ -1,17 +1,6 @@
 \* trace validation against the contract GraphAbs, versioned library, up to 16 live nodes
 CONSTANTS
-  Pkgs <- L_ver_Pkgs
-  PkgKey <- L_ver_PkgKey
-  PkgImports <- L_ver_PkgImports
-  PkgExports <- L_ver_PkgExports
-  KindTab <- L_ver_Kinds
-  ImportNames <- L_ver_ImportNames
-  ExportNames <- L_ver_ExportNames
-  DefNames <- L_ver_DefNames
-  ValidNames <- L_ver_ValidNames
-  DefClass <- L_ver_DefClass
-  DefDeps <- L_ver_DefDeps
-  NameInfo <- L_ver_NameInfo
+  LibName = "ver"
   NodeIds = {1, 2, 3, 4, 5, 6, 7, 8, 9, 10, 11, 12, 13, 14, 15, 16}
   OpKinds = {"register", "unregister", "define_type", "import", "instantiate", "alias", "set_arg", "unset_arg", "export", "unexport", "set_name", "remove"}
 SPECIFICATION TraceSpec
